@@ -648,12 +648,16 @@ var corpus = []string{
 	"/* a */ // b\n# c\nstruct S { /* d */ 1: i32 a /* e */ // f\n }", "const i32 e1 = 1 const double e2 = 1 const list<i32> l = [1 e5]",
 }
 
-// suspects are the smallest documents showing each spelling on which the unchanged tree is suspected to fail.
+// suspects are the smallest documents showing each spelling on which the tree failed before the fixes 5d7ef08, 5914c39,
+// d36828f, 1a143d7, 809bbec (regression items, checked first under three layouts) or still fails (fieldreq-prefix).
 func suspects() []*Doc {
 	i32 := func() *Type { return &Type{Name: "i32"} }
 	st := func(f *Field) *Doc { return &Doc{Defs: []*Def{{Kind: "struct", Name: "S", Fields: []*Field{f}}}} }
 	return []*Doc{
 		{Defs: []*Def{{Kind: "const", Name: "d", Type: &Type{Name: "double"}, Value: &CVal{Kind: 1, Dbl: "1e5"}}}},
+		{Defs: []*Def{{Kind: "const", Name: "l", Type: &Type{Kind: 3, Name: "list", V: &Type{Name: "double"}}, Value: &CVal{Kind: 4, List: []*CVal{{Kind: 1, Dbl: "1.5e3"}, {Kind: 1, Dbl: "-2E-2"}}}}}},
+		st(&Field{HasID: true, ID: 15, Sp: spOct, Type: i32(), Name: "a"}),
+		{Defs: []*Def{{Kind: "enum", Name: "E", Vals: []*EnumVal{{Name: "A", HasVal: true, Val: 31, Sp: spHex}, {Name: "B"}}}}},
 		st(&Field{HasID: true, ID: 16, Sp: spHex, Type: i32(), Name: "a"}),
 		st(&Field{HasID: true, ID: 99999999999, Type: i32(), Name: "a"}),
 		st(&Field{HasID: true, ID: 1, Type: &Type{Name: "requiredness"}, Name: "x"}),
@@ -678,10 +682,11 @@ func run(repo, dir string, seed uint64, tier string) error {
 	}
 	// the suspects of DESIGN §7 and of the modelling, as minimal documents, through the same oracle
 	for _, d := range suspects() {
-		text := render(d, layCanon, 1)
-		x.check(text, "suspect", true, false)
-		if v := judge(d, text); !v.ok {
-			x.reportDoc(d, v)
+		for _, text := range []string{render(d, layCanon, 1), render(d, layAdversarial, 1), render(d, layRandom, 2)} {
+			x.check(text, "regression", true, false)
+			if v := judge(d, text); !v.ok {
+				x.reportDoc(d, v)
+			}
 		}
 	}
 	for i := 0; i < nDocs; i++ {
